@@ -80,7 +80,8 @@ Record env := {
   e_block_gas : Z ;           (* GetAvailableGas: block gas limit - consumed (a Go int) *)
   e_sender_code : bool ;      (* the sender's keeper record carries a non-empty code hash *)
   e_created : addr ;          (* CreateAddress(sender, state nonce): recipient of a creation *)
-  e_dup : bool                (* the same bytes are in the node's tx index (earlier block) *)
+  e_dup : bool ;              (* the same bytes are in the node's tx index (earlier block) *)
+  e_min_fee : Z               (* FeeOption.MinFee() read by ValidateFee *)
 }.
 
 (* the interpreter's answer for the top-level call/create frame *)
@@ -187,37 +188,9 @@ Definition contract_fee (s : state) (t : otx) (gas_used : Z) : bool * state :=
   else if t_gas t <? gas_used then (false, s)          (* ErrGasOverflow *)
   else (true, add_pool s (t_price t * gas_used)).      (* FeePool.AddToPool(price * gasUsed) *)
 
-Inductive outcome :=
-| Executed (vm_failed : bool) (gas_used : Z)     (* DeliverTx code 0 *)
-| NotExecuted                                     (* DeliverTx code 1: nothing is committed *)
-| Duplicate.                                      (* cached response, no session opened *)
-
-(* txDeliverer for an OLVM transaction *)
-Definition deliver_olvm (s : state) (e : env) (t : otx) (o : oracle) : outcome * state :=
-  if e_dup e then (Duplicate, s)
-  else
-    let '(ok, gu, s1) := handler s e t o in
-    let '(fee_ok, s2) := contract_fee s1 t gu in
-    if ok && fee_ok
-    then (Executed (o_failed o) gu, s2)               (* CommitTxSession *)
-    else (NotExecuted, s).                            (* DiscardTxSession *)
-
-(* ---------- native SEND ---------- *)
-Record ntx := { n_from : addr ; n_to : addr ; n_amount : Z ; n_price : Z ; n_gas : Z }.
-
-(* transfer.runTx + BasicFeeHandling; [used] = storage gas measured by the wrapper (an input) *)
-Definition deliver_send (s : state) (t : ntx) (used : Z) : bool * state :=
-  if balance s (n_from t) <? n_amount t then (false, s)
-  else
-    let s1 := add_bal (add_bal s (n_from t) (- n_amount t)) (n_to t) (n_amount t) in
-    if n_gas t <? used then (false, s)
-    else
-      let charge := n_price t * used in
-      if balance s1 (n_from t) <? charge then (false, s)
-      else (true, add_pool (add_bal s1 (n_from t) (- charge)) charge).
-
-(* ---------- CheckTx acceptance of an OLVM transaction (olvmTx.Validate, validateEthTx) on the
-   check state [s] ---------- *)
+(* ---------- olvmTx.Validate (validateSigner, ValidateFee, Amount.IsValid, validateEthTx, memo):
+   run by CheckTx on the check state and, since /repo d276709, by DeliverTx on the deliver state
+   before the handler ---------- *)
 Definition validate (s : state) (min_fee : Z) (t : otx) : bool :=
   t_chain_ok t
   && (min_fee <=? t_price t)
@@ -228,15 +201,53 @@ Definition validate (s : state) (min_fee : Z) (t : otx) : bool :=
   && match intrinsic_gas t with None => false | Some ig => negb (gas_u64 t <? ig) end
   && t_memo_ok t.
 
+Inductive outcome :=
+| Executed (vm_failed : bool) (gas_used : Z)     (* DeliverTx code 0 *)
+| NotExecuted                                     (* DeliverTx code 1: nothing is committed *)
+| Duplicate.                                      (* cached response, no session opened *)
+
+(* txDeliverer for an OLVM transaction: cached response | Validate (reject: session discarded,
+   code 1, neither handler nor fee step runs) | handler, fee step, commit iff both ok *)
+Definition deliver_olvm (s : state) (e : env) (t : otx) (o : oracle) : outcome * state :=
+  if e_dup e then (Duplicate, s)
+  else if negb (validate s (e_min_fee e) t) then (NotExecuted, s)
+  else
+    let '(ok, gu, s1) := handler s e t o in
+    let '(fee_ok, s2) := contract_fee s1 t gu in
+    if ok && fee_ok
+    then (Executed (o_failed o) gu, s2)               (* CommitTxSession *)
+    else (NotExecuted, s).                            (* DiscardTxSession *)
+
+(* ---------- native SEND ---------- *)
+Record ntx := { n_from : addr ; n_to : addr ; n_amount : Z ; n_price : Z ; n_gas : Z ;
+                n_sig_ok : bool   (* exactly one signature, by n_from, over the raw bytes *) }.
+
+(* sendTx.Validate: ValidateBasic (signers), ValidateFee (currency OLT, price >= min fee),
+   Amount.IsValid (known currency, value >= 0), address validity *)
+Definition send_validate (min_fee : Z) (t : ntx) : bool :=
+  n_sig_ok t && (min_fee <=? n_price t) && (0 <=? n_amount t).
+
+(* transfer.runTx + BasicFeeHandling; [used] = storage gas measured by the wrapper (an input) *)
+Definition deliver_send (s : state) (min_fee : Z) (t : ntx) (used : Z) : bool * state :=
+  if negb (send_validate min_fee t) then (false, s)
+  else if balance s (n_from t) <? n_amount t then (false, s)
+  else
+    let s1 := add_bal (add_bal s (n_from t) (- n_amount t)) (n_to t) (n_amount t) in
+    if n_gas t <? used then (false, s)
+    else
+      let charge := n_price t * used in
+      if balance s1 (n_from t) <? charge then (false, s)
+      else (true, add_pool (add_bal s1 (n_from t) (- charge)) charge).
+
 (* ---------- mixed histories ---------- *)
 Inductive step :=
 | SOlvm (e : env) (t : otx) (o : oracle)
-| SSend (t : ntx) (used : Z).
+| SSend (min_fee : Z) (t : ntx) (used : Z).
 
 Definition run_step (s : state) (st : step) : state :=
   match st with
   | SOlvm e t o => (deliver_olvm s e t o).2
-  | SSend t used => (deliver_send s t used).2
+  | SSend m t used => (deliver_send s m t used).2
   end.
 
 Definition run (s : state) (l : list step) : state := fold_left run_step l s.
